@@ -122,10 +122,16 @@ func (x *runner) enc(arg string) string {
 	switch {
 	case p != "":
 		x.r.Count("enc:panic")
+		if top.hasMap() { // which entry of a Go map fails first depends on the iteration order
+			return "fail" + vx
+		}
 
 		return "panic" + vx
 	case err != nil:
 		x.r.Count("enc:err")
+		if top.hasMap() {
+			return "fail" + vx
+		}
 
 		return "err" + vx
 	}
